@@ -76,6 +76,90 @@ def run(ctx):
     ctx.require(any(True for _ in er.calls("free_words::relator_permutations")), "T2-relator-closure", er.name, "relator_permutations",
                 "closure uses relator_permutations", "expanded_relator_set no longer takes all rotations and inverses (relator_permutations)")
 
+    # ---------- (1b) definitions only at live rows; closure of the finished table; base row kept by compact
+    ctx.clauses += ["definitions are made only at live (canonical) rows, guard still valid at the definition (T3, deep validity)",
+                    "every relator is closed at every row of the returned table: consistency pass or deduction queue (T3 must-pass-through)",
+                    "compaction keeps the class of the base row as row 0 (T4)"]
+    for jb, jt in joins:
+        ja = [norm(ct.origin(a), g) for a in jt["args"]]
+        live = ("rel", "Eq", ja[1], ("call", CT + "::canon", (ja[0], ja[1])))
+        ok = any(implies(atom_norm(a, g), live) or implies(atom_norm(a, g), ("rel", "Eq", live[3], live[2])) for a in ct.facts_at(jb, deep=True))
+        ctx.ob("T3-define-at-live-row", ct.name, "join(i, n, g)<-i == canon(i)", "ok" if ok else "violation",
+               "a new coset is defined only while i == canon(i) is known to hold (no table change since the test)" if ok else
+               "a definition join(i, n, g) is not dominated by a still-valid test i == canon(i): the table may have merged row i away since the test, the stale row then receives entries its class never sees", ct.span_of(jb))
+    closure = []
+    tab_local = norm(ct.origin(joins[0][1]["args"][0]), g) if joins else None
+    for bi, t in list(ct.calls(exact="fpgroups::cosets::scan_and_connect")) + list(ct.calls(exact="fpgroups::cosets::scan_both_ways")):
+        w_src = iter_source(ct, ct.origin(t["args"][1]), g)
+        st = norm(ct.origin(t["args"][2]), g)
+        row = st[2][1] if st[0] == "call" and st[1].endswith("CosetTable::canon") and len(st[2]) == 2 else st
+        if any(ct.dominates(jb, bi) for jb, jt in joins):
+            continue                      # part of the definition step
+        rng = loop_range_of_payload(ct, row, g) if row[0] == "field" else None
+        all_rows = rng is not None and rng[0] == ("int", 0) and not rng[2] and rng[1][0] == "call" and rng[1][1].endswith("CosetTable::len")
+        from_queue = contains(row, lambda s: isinstance(s, tuple) and s and s[0] == "call" and (s[1].endswith("pop_front") or s[1].endswith("::pop")))
+        rels_src = w_src is not None and contains(w_src, lambda s: isinstance(s, tuple) and s and s[0] == "call" and s[1].endswith("expanded_relator_set"))
+        if (all_rows or from_queue) and rels_src:
+            closure.append((bi, t, "all-rows" if all_rows else "queue"))
+    okc = False
+    for bi, t, kind in closure:
+        lp = loop_containing(ct, bi)
+        # outermost enclosing loop header
+        hdr = None
+        cur = bi
+        while True:
+            l2 = loop_containing(ct, cur)
+            if l2 is None:
+                break
+            hdr = l2[0]
+            cur = l2[0]
+            # climb: find a loop that contains this header other than itself
+            outer = [x for x in loops_in(ct) if x[0] != l2[0] and ct.dominates(x[1], l2[0]) and x[0] in ct.fwd(l2[0])]
+            if not outer:
+                break
+            cur = outer[0][1]
+        rets = ct.return_blocks()
+        if hdr is not None and rets and all(must_pass_through(ct, 0, hdr, r) for r in rets):
+            # coincidences found there are merged
+            reg = {x for x in ct.fwd(hdr)}
+            merges = [mb for mb, mt in ct.calls(exact=CT + "::merge")] + ([bi] if t["callee"].get("def", "").endswith("scan_and_connect") else [])
+            if any(m in reg for m in merges):
+                okc = True
+    ctx.ob("T3-relators-closed-everywhere", ct.name, "closure pass before return", "ok" if okc else "violation",
+           "every path to the return passes a loop that scans every relator at every row (or at every queued deduction) and merges coincidences" if okc else
+           "relators are scanned only at the row of each new definition: deductions made by those scans are never scanned themselves and there is no consistency pass over the finished table, so coincidences can be missed (a relator may not close at some row; too many rows)")
+    cp = ctx.body(CT + "::compact")
+    ctx.scan([cp])
+    mecp = ("param", 1, cp.debug.get(1, ""))
+    base = ("call", CT + "::canon", (mecp, ("int", 0)))
+    reads_base = any(norm(cp.local_origin(t["dest"]["l"]), g) == base for bi, t in cp.calls(exact=CT + "::canon") if not t["dest"]["p"])
+    okb = False
+    why = "compact() never looks at canon(0)"
+    if reads_base:
+        why = "no numbering store guarded by k != canon(0) with the counter starting at 1"
+        for bi, t in cp.calls("ops::IndexMut::index_mut"):
+            base_t = norm(cp.origin(t["args"][0]), g)
+            if not (base_t[0] == "local" and base_t[2] == "old_to_new") and not (base_t[0] == "local"):
+                continue
+            idx = norm(cp.origin(t["args"][1]), g)
+            fa = [atom_norm(a, g) for a in cp.facts_at(bi)]
+            guarded = any(implies(h, ("rel", "Ne", idx, base)) or implies(h, ("rel", "Ne", base, idx)) for h in fa)
+            # stored counter: a multi-defined local whose constant definition is 1
+            dest = t["dest"]["l"]
+            val = None
+            for bj, si, s in cp.assigns():
+                if s["place"]["l"] == dest and [e["k"] for e in s["place"]["p"]] == ["deref"]:
+                    val = strip(cp.rv_origin(s["rv"]))
+            starts_at_1 = False
+            if val is not None and val[0] == "local":
+                consts = [norm(d[1], g) for d in cp.all_defs_origins(val[1]) if norm(d[1], g)[0] == "int"]
+                starts_at_1 = consts == [("int", 1)]
+            if guarded and starts_at_1:
+                okb = True
+    ctx.ob("T4-compact-keeps-base-row", cp.name, "old_to_new[canon(0)] == 0", "ok" if okb else "violation",
+           "the class of row 0 is numbered 0: the other live rows are numbered from 1 and exclude canon(0)" if okb else
+           "compaction numbers the live rows in index order without regard to which row represents the class of row 0 (%s): after a merge in which row 0 lost, the base coset is no longer row 0" % why)
+
     # ---------- (2) coset_representative
     ctx.clauses.append("representatives are read off the table (T2/T3)")
     cr = ctx.body("fpgroups::cosets::coset_representative")
